@@ -549,7 +549,7 @@ func c26Child(rec *kit.Rec) {
 			rec.Count("hostile_panics", 1)
 			w["panic"] = msg
 			w["stack"] = clip(stack, 3000)
-			rec.Violation("panic/"+c.Dec+"/"+kit.PanicSite(stack)+"/"+kit.MsgClass(msg), fmt.Sprintf("%s.UnmarshalBinary panicked on a %d-byte input (%s): %s", c26TypeName(c.Dec), len(c.In), c.Class, msg), w)
+			rec.Violation("panic/"+c.Dec+"/"+strings.TrimPrefix(kit.PanicSite(stack), "/")+"/"+c26PanicKind(msg), fmt.Sprintf("%s.UnmarshalBinary panicked on a %d-byte input (%s): %s", c26TypeName(c.Dec), len(c.In), c.Class, msg), w)
 		case !bytes.Equal(in, c.In):
 			rec.Violation("input-modified/"+c.Dec, "UnmarshalBinary modified its input slice", w)
 		case err != nil:
@@ -711,6 +711,23 @@ batches:
 }
 
 // c26CrashKind is a coarse, stable class of a child death.
+// c26PanicKind coarsens a panic message to its kind: one defect (a negative or
+// oversized length reaching a slice expression) must not get one signature per
+// spelling of the bounds ("[-#:]", "[:-#]", "[#:#]").
+func c26PanicKind(msg string) string {
+	switch {
+	case strings.Contains(msg, "slice bounds out of range"):
+		return "slice-bounds-out-of-range"
+	case strings.Contains(msg, "index out of range"):
+		return "index-out-of-range"
+	case strings.Contains(msg, "makeslice") || strings.Contains(msg, "makemap") || strings.Contains(msg, "growslice"):
+		return "allocation-size-out-of-range"
+	case strings.Contains(msg, "nil pointer dereference"):
+		return "nil-dereference"
+	}
+	return kit.MsgClass(msg)
+}
+
 func c26CrashKind(res kit.ChildResult) string {
 	t := res.Tail
 	switch {
